@@ -7,7 +7,7 @@ import vlib
 from vlib import Recorder, Report, b2l, call, exc_info
 from props import c06
 
-HTS = [1, 2, 3, 0x81, 0x82, 0x83, 0, 4, 0x84]
+HTS = [1, 2, 3, 0x81, 0x82, 0x83, 0, 4, 0x84, 0x22, 0x43, 0xe3, 0xa2]
 TEMPLATES = ["p2pk", "p2pkh", "ms-1of1", "ms-1of2", "ms-2of2", "ms-2of3", "p2sh-p2pk", "p2sh-ms-2of3", "p2sh-p2pkh"]
 
 
@@ -21,6 +21,7 @@ def edits_for(d, idx):
     for j in range(1, no + 1):
         out.append({"k": "out", "j": j, "f": "value"})
         out.append({"k": "out", "j": j, "f": "script"})
+    out.append({"k": "duplicate-sig", "j": 0, "f": ""})
     if no >= 1:
         out.append({"k": "remove-last-out", "j": no, "f": ""})
     if ni >= 2 and idx != ni - 1:
@@ -101,14 +102,14 @@ def drive(tier):
     plan = []
     for ti, template in enumerate(TEMPLATES):
         for hi, ht in enumerate(HTS):
-            if tier == "quick" and (ti + hi) % 3:
+            if tier == "quick" and (ti + hi + vlib.seed()) % 5:
                 continue
             plan.append((template, ht, shapes[(ti + hi) % len(shapes)]))
     for template, ht, (ni, no) in plan:
         d = gen.gen_tx(r, nin=ni, nout=no, witness="none", lens=[0, 1, 25])
         for i in d["vin"]:
             i["script"] = b""
-        for idx in (range(ni) if tier == "thorough" else [r.randrange(ni)]):
+        for idx in (range(ni) if tier == "thorough" else [ni - 1 if r.random() < 0.7 else r.randrange(ni)]):
             if (ht & 0x1f) == 3 and idx >= no:
                 continue                    # SIGHASH_SINGLE without a matching output signs the constant 1 (C03)
             ks = r.sample(keys, 3)
@@ -120,7 +121,13 @@ def drive(tier):
             sigs = [k.sign(h) + bytes([ht]) for k in signers]
             ssig = script_sig(template, code, sigs, ks)
             alle = edits_for(d, idx)
-            chosen = alle if tier == "thorough" else [alle[0], alle[1]] + r.sample(alle[2:], 2)
+            if tier == "thorough":
+                chosen = alle
+            else:
+                # the discriminating edits first: same-index output, first output, another input's sequence / outpoint
+                pri = [e for e in alle if (e["k"] == "out" and e["f"] == "value" and e["j"] in (idx + 1, 1)) or
+                       (e["k"] == "in" and e["j"] != idx + 1 and e["f"] in ("seq", "prevout")) or e["k"] in ("append-out", "duplicate-sig")]
+                chosen = [alle[0], alle[1]] + r.sample(pri, min(3, len(pri))) + r.sample(alle[2:], 1)
             for e in chosen:
                 n_hist += 1
                 d2 = apply_edit(d, e, r)
@@ -128,6 +135,10 @@ def drive(tier):
                 if e["k"] == "other-key":
                     osigs = [other.sign(h) + bytes([ht])] + sigs[1:]
                     ssig2 = script_sig(template, code, osigs, ks)
+                if e["k"] == "duplicate-sig":
+                    if len(sigs) < 2:
+                        continue            # only meaningful for m >= 2: one signer's signature presented twice
+                    ssig2 = script_sig(template, code, [sigs[0]] * len(sigs), ks)
                 tx2 = gen.build_tx(d2, bool(n_hist & 1))
                 before = tx2.serialize()
                 k, v = call(se.VerifyScript, ssig2, spk, tx2, idx, c06.flag_objs(flags))
